@@ -1056,8 +1056,15 @@ impl<'a, 'b, W: Write> Serializer for &'a mut YamlSerializer<'b, W> {
             let first_line_spaces = crate::wrapping::first_line_leading_spaces(content_trimmed);
             let needs_indicator = first_line_spaces > 0;
 
+            // A block scalar body is written raw, line by line, so it cannot carry a carriage
+            // return (a line break for the parser) or any other control character besides
+            // the line feeds it is split on and tabs.
+            let body_not_representable = v
+                .chars()
+                .any(|c| c != '\n' && c != '\t' && c.is_control());
+
             // If N > 9, YAML parsers reject it. Fall back to quoting.
-            if needs_indicator && indent_n > 9 {
+            if (needs_indicator && indent_n > 9) || body_not_representable {
                 // Reset state and fall through to quoted string handling
                 self.pending_str_style = None;
                 self.pending_str_from_auto = false;
